@@ -203,6 +203,7 @@ class Tracer:
         if self.record_fresh:
             fresh = {}
             pending = {}
+            activated = {}
             self.in_fresh = True
             try:
                 for ti, t in enumerate(self.taggers):
@@ -212,10 +213,13 @@ class Tracer:
                     except Exception as e:  # noqa
                         fresh[ti] = "EXC:" + type(e).__name__
                     pending[ti] = [self.pending_ids.get(self.hidx[id(h)]) for h in act._running_event_handlers[t]]
+                    activated[ti] = t.__dict__.get("yield_identifiers_send_event_time") \
+                        is not t._deactivated_yield_identifiers_send_event_time
             finally:
                 self.in_fresh = False
             self.cur["fresh"] = fresh
             self.cur["pending"] = pending
+            self.cur["activated"] = activated
         self.cur["occ"] = self.occ_record()
 
     def finish(self):
